@@ -405,6 +405,31 @@ impl Prop for C10 {
                 ]
             });
         }
+        // very rarely: a one-item insertion in front of a run of thousands of
+        // identical items (thousands of single slide steps), or an equal call
+        // of more than 2^20 items right behind an insertion
+        match rng.below(if tier == Tier::Quick { 40_000 } else { 150_000 }) {
+            0..=3 => {
+                let run = 1100 + rng.usize(5000);
+                seq.old = vec![7; run];
+                seq.new = vec![7; run + 1];
+                seq.old_range = (0, run);
+                seq.new_range = (0, run + 1);
+                script = Some(vec![Call::Insert(0, 0, 1), Call::Equal(0, 1, run)]);
+            }
+            4 => {
+                let n = (1 << 20) + 5 + rng.usize(50);
+                let old: Vec<u32> = (0..n).map(|i| (i % 251) as u32).collect();
+                let mut new = vec![old[0]];
+                new.extend_from_slice(&old);
+                seq.old = old;
+                seq.new = new;
+                seq.old_range = (0, n);
+                seq.new_range = (0, n + 1);
+                script = Some(vec![Call::Insert(0, 0, 1), Call::Equal(0, 1, n)]);
+            }
+            _ => {}
+        }
         Case {
             seq,
             script_seed: rng.next(),
